@@ -1,0 +1,149 @@
+/*
+ * Verification hooks. This module is only compiled with `--cfg breadlog_verif`
+ * and exposes otherwise crate-private parser functions to the external
+ * verification harness. It adds no behaviour to the normal build.
+ */
+
+use crate::config;
+use crate::parser::code_parser::CodeLanguage;
+use crate::parser::LogRefKind;
+
+/// One entry returned by the reference finder, flattened to plain data.
+pub struct HookEntry
+{
+    pub character: usize,
+    pub line: usize,
+    pub column: usize,
+    pub reference: Option<u32>,
+    pub macro_name: String,
+    pub kind: &'static str,
+    pub usable: bool,
+    pub exists: bool,
+    /// `insertable_reference_string(id_probe)`.
+    pub insertable_probe: String,
+}
+
+/// Builds a configuration from YAML the same way the application does.
+pub fn config_from_yaml(yaml: &str, config_dir: &str) -> Result<config::Config, String>
+{
+    config::Context::new(yaml.to_string(), config_dir, true).map(|c| c.config)
+}
+
+/// Loads a context and reports the fields the verification cares about:
+/// (source_dir, use_cache, structured, extensions, cached_next_reference_id).
+pub fn context_fields(
+    yaml: &str,
+    config_dir: &str,
+    check_mode: bool,
+) -> Result<(String, bool, bool, Vec<String>, Option<u32>), String>
+{
+    config::Context::new(yaml.to_string(), config_dir, check_mode).map(|c| {
+        (
+            c.config.source_dir.clone(),
+            c.config.use_cache,
+            c.config.rust.structured,
+            c.config.rust.extensions.clone(),
+            c.cached_next_reference_id,
+        )
+    })
+}
+
+/// Runs the reference finder on `code`.
+pub fn entries(code: &str, config: &config::Config, id_probe: u32) -> Vec<HookEntry>
+{
+    crate::parser::code_parser::find_references(CodeLanguage::Rust, code, config)
+        .iter()
+        .map(|e| HookEntry {
+            character: e.position().character(),
+            line: e.position().line(),
+            column: e.position().column(),
+            reference: e.reference(),
+            macro_name: e._macro_name().to_string(),
+            kind: match e.kind()
+            {
+                LogRefKind::Unknown => "Unknown",
+                LogRefKind::String => "String",
+                LogRefKind::StructuredPreExisting => "StructuredPreExisting",
+                LogRefKind::StructuredNew => "StructuredNew",
+            },
+            usable: e.usable_reference_position(),
+            exists: e.exists(),
+            insertable_probe: e.insertable_reference_string(id_probe),
+        })
+        .collect()
+}
+
+/// `LogRefEntry::extract_reference`.
+pub fn extract_reference(literal: &str) -> Option<u32>
+{
+    crate::parser::LogRefEntry::extract_reference(literal)
+}
+
+/// The two directive checks, with the caller's comment pattern.
+pub fn directives(code: &str, subject_pos: usize, comment_pattern: &str) -> (bool, bool)
+{
+    let re = regex::Regex::new(comment_pattern).unwrap();
+    (
+        crate::parser::check_for_ignore_directive(code, subject_pos, &re),
+        crate::parser::check_for_no_kvp_directive(code, subject_pos, &re),
+    )
+}
+
+/// The pest pair tree of `Rule::file`.
+pub fn pair_tree(code: &str) -> Option<String>
+{
+    crate::parser::rust_parser::verif_pair_tree(code)
+}
+
+/// `pest::Position::line_col` at a byte offset (None when not a char boundary).
+pub fn line_col(code: &str, pos: usize) -> Option<(usize, usize)>
+{
+    pest::Position::new(code, pos).map(|p| p.line_col())
+}
+
+/// Character classes used by the grammar and the directive scan, as sorted
+/// inclusive ranges over all Unicode scalar values.
+pub fn unicode_class_ranges(name: &str) -> Vec<(u32, u32)>
+{
+    let pred: fn(char) -> bool = match name
+    {
+        "XID_START" => pest::unicode::XID_START,
+        "XID_CONTINUE" => pest::unicode::XID_CONTINUE,
+        "WHITE_SPACE" => char::is_whitespace,
+        _ => panic!("unknown class"),
+    };
+    let mut out: Vec<(u32, u32)> = Vec::new();
+    for cp in 0u32..=0x10FFFF
+    {
+        if let Some(c) = char::from_u32(cp)
+        {
+            if pred(c)
+            {
+                match out.last_mut()
+                {
+                    Some(last) if last.1 + 1 == cp => last.1 = cp,
+                    _ => out.push((cp, cp)),
+                }
+            }
+        }
+    }
+    out
+}
+
+/// All scalar values whose `char::to_lowercase` differs from themselves.
+pub fn lowercase_table() -> Vec<(u32, Vec<u32>)>
+{
+    let mut out = Vec::new();
+    for cp in 0u32..=0x10FFFF
+    {
+        if let Some(c) = char::from_u32(cp)
+        {
+            let lower: Vec<u32> = c.to_lowercase().map(|x| x as u32).collect();
+            if lower != vec![cp]
+            {
+                out.push((cp, lower));
+            }
+        }
+    }
+    out
+}
